@@ -126,3 +126,46 @@ example : WF ([3, 1, 2] : S Nat) ∧ WF ([2, 5] : S Nat) ∧
   refine ⟨by unfold WF; decide, by unfold WF; decide, by decide, by decide, by decide, by decide⟩
 
 end LC.Sets
+
+namespace LC.Sets
+variable {α : Type} [DecidableEq α]
+
+/-- Two disjoint well-formed parts that together have the members of `s` have
+`Len`s adding up to `Len s`. -/
+theorem len_of_parts (s a b : S α) (hs : WF s) (ha : WF a) (hb : WF b)
+    (hdisj : ∀ x, x ∈ a → x ∉ b) (hmem : ∀ x, x ∈ s ↔ x ∈ a ∨ x ∈ b) :
+    len s = len a + len b := by
+  have hab : WF (a ++ b) := by
+    unfold WF at *
+    exact List.nodup_append.2 ⟨ha, hb, fun x hx y hy hxy => hdisj x hx (hxy ▸ hy)⟩
+  have := len_spec s (a ++ b) hs hab (fun x => by rw [hmem x, List.mem_append])
+  simpa [len] using this
+
+/-- `Len s = Len (s ∩ o) + Len (s \ o)`. -/
+theorem len_split (en : Enum α) (s o : S α) (hs : WF s) (ho : WF o) :
+    len s = len (intersect en s (some o)) + len (difference en s (some o)) := by
+  have hi := intersect_spec en s (some o) hs ho
+  have hd := difference_spec en s (some o) hs
+  apply len_of_parts s _ _ hs hi.1 hd.1
+  · intro x hx hx'
+    rw [hi.2] at hx; rw [hd.2] at hx'; exact hx'.2 hx.2
+  · exact (split_by en s (some o) hs ho).1
+
+/-- Inclusion–exclusion: `Len (s ∪ o) + Len (s ∩ o) = Len s + Len o`, whatever
+the iteration orders. -/
+theorem len_union_intersect (en : Enum α) (s o : S α) (hs : WF s) (ho : WF o) :
+    len (union en s (some o)) + len (intersect en s (some o)) = len s + len o := by
+  have hu := union_spec en s (some o) hs ho
+  have hd := difference_spec en o (some s) ho
+  have h1 : len (union en s (some o)) = len s + len (difference en o (some s)) := by
+    apply len_of_parts _ s _ hu.1 hs hd.1
+    · intro x hx hx'
+      rw [hd.2] at hx'; exact hx'.2 hx
+    · intro x
+      rw [hu.2, hd.2]; simp only [memo]
+      by_cases h : x ∈ s <;> simp [h]
+  have h2 := len_split en o s ho hs
+  have h3 := (intersect_comm en en s o hs ho).2.1
+  omega
+
+end LC.Sets
